@@ -86,6 +86,21 @@ theorem name_lookup_falls_back_to_context (st : AState) (n : Name) (t : Ty)
 example : ∃ st : AState, alookup [120] st.names = some (.prim 9) ∧ alookup [120] st.ctxdefs = some (.prim 25) :=
   ⟨{ names := [([120], .prim 9)], ctxdefs := [([120], .prim 25)] }, by decide⟩
 
+/-- `pretty_irrelevant`, as far as it is decided here: pretty-printing is not part of the model
+    (`fmtTop` has no layout parameter: it produces the abstract syntax, and the harness compares
+    the syntax the real parser reads from the real text for pretty 0, 2 and 4 with it).  What is
+    an obligation is that the layout code of `zson/formatter.go` only ever writes blanks and line
+    breaks: every statement guarded by `f.tab > 0` is `f.build(" ")`, `newline` is `""` or
+    `"\n"` and is only written as such or after a `","`, and `indent` writes `' '` bytes in
+    front of a token that is written anyway (regenerated text; a layout statement that starts to
+    write anything else breaks this). -/
+theorem layout_writes_only_whitespace :
+    C02.prettyGuardedBodies = ["{ f.build(\" \") }", "{ newline = \"\\n\" }"] ∧
+    C02.newlineUses = ["f.build(f.newline)", "f.build(newline)", "newline := f.newline", "newline = \"\"",
+      "newline = \"\\n\"", "sep := f.newline", "sep = \",\" + f.newline"] ∧
+    C02.indentBody = ["for k := 0; k < tab; k++ { f.builder.WriteByte(' ') }", "f.build(s)"] :=
+  ⟨rfl, rfl, rfl⟩
+
 /-- every primitive name the formatter can print is read back as the same primitive
     (`PrimitiveName` and `LookupPrimitive` are inverse tables). -/
 theorem primitive_names_inverse :
